@@ -19,6 +19,9 @@ def main():
     if kind == "kw":
         r = driver.rt_call("pyvc.rt_kw", {"cmd": "replay", "root": root, "draft": f["draft"], "schema": f["schema"], "instance": f["instance"],
                                           "mode": f.get("mode", rp.get("mode", "verdict"))}, root)
+    elif kind == "hist" and f.get("kind") == "I":
+        r = driver.rt_call("pyvc.rt_hist", {"cmd": "interleave", "root": root}, root)
+        r = {"status": "fails" if r.get("failures") else "agrees", "failures": r.get("failures")}
     else:
         r = driver.rt_call("pyvc.rt_" + kind, {"cmd": "replay", "root": root, "failure": f}, root)
     print(json.dumps(r, indent=1))
